@@ -27,7 +27,7 @@ Fld(r, f, dflt) == IF f \in DOMAIN r THEN r[f] ELSE dflt
 (* ideal context of a host-level Context object *)
 CtxOf(c, id) == IF id \in DOMAIN c THEN c[id] ELSE State0
 PutCtx(c, id, S) == [x \in (DOMAIN c) \cup {id} |-> IF x = id THEN S ELSE c[x]]
-Settle(S) == [S EXCEPT !.sig = "", !.err = NoErr, !.out = "", !.rv = VNil, !.hasrv = FALSE, !.cerr = NoErr, !.depth = 0, !.inloop = 0]
+Settle(S) == [S EXCEPT !.sig = "", !.err = NoErr, !.out = "", !.rv = VNil, !.hasrv = FALSE, !.cerr = NoErr, !.depth = 0, !.inloop = 0, !.locked = {}]
 
 NoResidue(o) == /\ Fld(o, "ctrl", 0) = 0 /\ Fld(o, "lvl", 0) = 0
                 /\ ~Fld(o, "brk", FALSE) /\ ~Fld(o, "cont", FALSE) /\ ~Fld(o, "ret", FALSE)
@@ -36,13 +36,30 @@ NoResidue(o) == /\ Fld(o, "ctrl", 0) = 0 /\ Fld(o, "lvl", 0) = 0
 \* observed value o against ideal value v (a wildcard null matches any null)
 VEq(o, v) == IF v.t = "null" /\ v.ty.m = "any" THEN o.t = "null" ELSE o = v
 
+(* -------------- invariants of every observed value (C09) -------------- *)
+\* every element of a table has exactly the table's element type, every tuple item the declared type
+RECURSIVE Uniform(_)
+ObsType(v) == IF IsNull(v) THEN [v.ty EXCEPT !.d = <<>>] ELSE TypeOf(v)
+Uniform(v) ==
+  CASE v.t = "tab" -> \A j \in DOMAIN v.v :
+                         /\ (IF IsNull(v.v[j]) THEN ObsType(v.v[j]) = [ElemType(v.ty) EXCEPT !.d = <<>>]
+                             ELSE TypeOf(v.v[j]) = ElemType(v.ty))
+                         /\ Uniform(v.v[j])
+    [] v.t = "tup" -> /\ Len(v.v) = Len(v.ty.d) /\ Len(v.v) >= 1
+                      /\ \A j \in DOMAIN v.v : TypeOf(v.v[j]).m = v.ty.d[j] /\ TypeOf(v.v[j]).l = 0
+                                                /\ v.ty.d[j] \notin {"undef", "row"}
+    [] OTHER -> TRUE
+AllUniform(o) == \A j \in DOMAIN o.vars : Uniform(o.vars[j].val)
+
 (* ------------------------- comparing a dump --------------------------- *)
 ObsVar(o, n) == LET idx == {j \in DOMAIN o.vars : o.vars[j].n = n} IN
                 IF idx = {} THEN [n |-> "", val |-> [t |-> "absent"], safe |-> FALSE, lock |-> FALSE]
                 ELSE o.vars[CHOOSE j \in idx : TRUE]
 IsSafeName(n) == n \in {"$S", "$T", "$U", "$ARG"}
 DumpWhy(o, S) ==
-  IF \E n \in DOMAIN S.vars : ~VEq(ObsVar(o, n).val, S.vars[n])
+  IF ~AllUniform(o) THEN "a table is not uniform or a tuple does not match its structure"
+  ELSE IF S.unk THEN (IF ~NoResidue(o) THEN "control state left behind" ELSE "")
+  ELSE IF \E n \in DOMAIN S.vars : ~VEq(ObsVar(o, n).val, S.vars[n])
     THEN LET n == CHOOSE n \in DOMAIN S.vars : ~VEq(ObsVar(o, n).val, S.vars[n]) IN
          "variable " \o n \o " differs from the specification; expected: " \o ToJson(S.vars[n])
   ELSE IF \E j \in DOMAIN o.vars : o.vars[j].n \notin DOMAIN S.vars /\ o.vars[j].val.t # "null"
@@ -78,6 +95,8 @@ RunWhy(o, S) ==      \* S = ideal state after the run
   ELSE IF ~NoResidue(o) THEN "control state left behind"
   ELSE ""
 
+StaticRejectable(S) == S.sig = "err" /\ S.err.kind = "OTHER" /\ S.err.name \in {"type", "rank", "tuple item", "table elem", "const"}
+
 (* ------------------------------ one step ------------------------------ *)
 \* returns [C |-> new contexts, why |-> "" or reason]
 StepResult(st, o, c) ==
@@ -91,8 +110,18 @@ StepResult(st, o, c) ==
          IF Has(st, "reject") THEN \* a text the generator made invalid: must be rejected, context untouched
               [C |-> c, why |-> IF o.oc # "parse_error" THEN "an invalid text was not rejected: " \o o.oc
                                 ELSE IF ~NoResidue(o) THEN "parse state left behind" ELSE ""]
-         ELSE LET S == RunProgram(st.ast, CtxOf(c, st.ctx)) IN
-              [C |-> PutCtx(c, st.ctx, Settle(S)), why |-> RunWhy(o, S)]
+         ELSE IF CtxOf(c, st.ctx).unk THEN \* after an unpinned step only the outcome alphabet is checked
+              [C |-> c, why |-> IF o.oc \in {"ok", "parse_error", "runtime_error"} THEN "" ELSE "outcome outside the alphabet: " \o o.oc]
+         ELSE LET S == RunProgram(st.ast, CtxOf(c, st.ctx))
+                  w == RunWhy(o, S) IN
+              IF o.oc = "parse_error" /\ StaticRejectable(S)
+              THEN \* a type/rank error may be found at compile time: the whole text is rejected, nothing ran
+                   [C |-> c, why |-> IF ~NoResidue(o) THEN "parse state left behind" ELSE IF o.out # "" THEN "a rejected text produced output" ELSE ""]
+              ELSE IF w = "UNDECIDED" /\ Has(st, "unpinned")
+              THEN \* the manual does not pin this operation: any BLOC outcome is allowed, the ideal context is lost
+                   [C |-> PutCtx(c, st.ctx, [State0 EXCEPT !.unk = TRUE]),
+                    why |-> IF o.oc \in {"ok", "parse_error", "runtime_error"} THEN "" ELSE "outcome outside the alphabet: " \o o.oc]
+              ELSE [C |-> PutCtx(c, st.ctx, Settle(S)), why |-> w]
     [] st.op = "dump" -> [C |-> c, why |-> DumpWhy(o, CtxOf(c, st.ctx))]
     [] st.op = "clone" -> [C |-> PutCtx(c, st.ctx, CtxOf(c, st.from)), why |-> ""]
     [] st.op = "purge" -> [C |-> PutCtx(c, st.ctx, State0), why |-> ""]
